@@ -126,6 +126,8 @@ class FakeSocket(object):
         self.wb_budget = wb_budget
         self.timeout = None
         self.dead = None      # once a transport fault fired: its kind
+        self.peer_gone = None  # 'epipe'|'reset': sends fail, receive buffer
+        #                        stays readable (peer closed after writing)
 
     def _count(self, k, n=1):
         self.stats[k] = self.stats.get(k, 0) + n
@@ -165,6 +167,10 @@ class FakeSocket(object):
         if self.closed:
             raise _oserr(errno.EBADF)
         f = self._planned("send")
+        if f is None and self.peer_gone:
+            f = self.peer_gone
+            self.fired.append(("send", self.calls["send"] - 1, f))
+            self._count("fault_" + f)
         if f is not None:
             self.calllog.append(("send", len(data), f))
             return self._raise_fault(f, "send")
@@ -198,6 +204,10 @@ class FakeSocket(object):
         if self.closed:
             raise _oserr(errno.EBADF)
         f = self._planned("sendall")
+        if f is None and self.peer_gone:
+            f = self.peer_gone
+            self.fired.append(("sendall", self.calls["sendall"] - 1, f))
+            self._count("fault_" + f)
         if f is not None:
             self.calllog.append(("sendall", len(data), f))
             self._raise_fault(f, "send")
